@@ -9,8 +9,8 @@ from . import val
 REG = {}          # property id -> [Obligation]
 
 class Obligation:
-    def __init__(self, prop, oid, fn, cls, funcs, cases, quick, use, canary, bound, domain, opaque, note, timeout, max_paths, finding, tiers=None, native=False):
-        self.native = native
+    def __init__(self, prop, oid, fn, cls, funcs, cases, quick, use, canary, bound, domain, opaque, note, timeout, max_paths, finding, tiers=None, native=False, sufficient=False):
+        self.native = native; self.sufficient = sufficient
         self.prop = prop; self.oid = oid; self.fn = fn; self.cls = cls; self.funcs = tuple(funcs)
         self.cases = cases; self.quick = quick; self.use = use; self.canary = canary; self.bound = bound
         self.domain = domain; self.opaque = tuple(opaque or ()); self.note = note; self.timeout = timeout
@@ -38,8 +38,10 @@ def _fmt(v):
     return str(v)
 
 def obligation(prop, oid, cls='L', funcs=(), cases=None, quick=None, use=None, canary=False, bound=None,
-               domain=None, opaque=None, note='', timeout=None, max_paths=None, finding=None, tiers=None, native=False):
+               domain=None, opaque=None, note='', timeout=None, max_paths=None, finding=None, tiers=None, native=False, sufficient=False):
     """register an obligation.
+    sufficient: the postcondition is a SUFFICIENT condition that is stronger than the property (e.g. equal object states where the
+         property asks for equal results): a refutation whose model does not fail natively is reported as undecided, not as a violation
     cls: 'L' lemma (loop free / concretely bounded, whole domain symbolic)   -- proved
          'I' inductive (loop invariant / fold step over unbounded input)     -- proved
          'E' exhaustive enumeration of a finite domain by native execution   -- proved
@@ -52,7 +54,7 @@ def obligation(prop, oid, cls='L', funcs=(), cases=None, quick=None, use=None, c
     assert cls in ('L', 'I', 'E', 'B')
     def deco(fn):
         REG.setdefault(prop, []).append(Obligation(prop, oid, fn, cls, funcs, cases, quick, use, canary, bound, domain,
-                                                   opaque, note, timeout, max_paths, finding, tiers, native))
+                                                   opaque, note, timeout, max_paths, finding, tiers, native, sufficient))
         return fn
     return deco
 
